@@ -70,11 +70,18 @@ def run_tests(filters, seed):
             "cmd": r["cmd"], "output": r["output"], "n_run": len(passed) + len(failed)}
 
 
+_RESULTS = {}
+
+
 def search_witness(tests, seed):
-    """tests: list of {match, test, [env]} → run each until one fails on the real code"""
+    """tests: list of {match, test, [env]} → run each until one fails on the real code (one run per test and check:
+    several failing obligations of one function usually share their witness)"""
     tried = []
     for t in tests:
-        r = cargo_test([t["test"]], seed, t.get("env"))
+        key = (t["test"], seed, json.dumps(t.get("env"), sort_keys=True))
+        if key not in _RESULTS:
+            _RESULTS[key] = cargo_test([t["test"]], seed, t.get("env"))
+        r = _RESULTS[key]
         passed, failed, wit, built = parse(r["output"])
         tried.append({"test": t["test"], "built": built, "failed": failed, "wall": round(r["wall"], 1)})
         if failed:
